@@ -8,7 +8,30 @@ package py
 
 import (
 	"fmt"
+	"reflect"
 )
+
+// ObjectIs returns whether a and b are the same object, as the
+// python `is` operator does.
+//
+// Tuple, Bytes and StringDict are Go slices and maps for which ==
+// on the interface values panics at run time, so these are the same
+// object if they share the same underlying storage.
+func ObjectIs(a, b Object) bool {
+	t := reflect.TypeOf(a)
+	if t != reflect.TypeOf(b) {
+		return false
+	}
+	if t == nil || t.Comparable() {
+		return a == b
+	}
+	switch t.Kind() {
+	case reflect.Slice, reflect.Map:
+		va, vb := reflect.ValueOf(a), reflect.ValueOf(b)
+		return va.Pointer() == vb.Pointer() && va.Len() == vb.Len()
+	}
+	return false
+}
 
 // Gets the attribute attr from object or returns nil
 func ObjectGetAttr(o Object, attr string) Object {
